@@ -780,6 +780,13 @@ fn main() {
                     writeln!(out, "json {} {}\t{}", mode, vd.to_text(), run_json(&env, mode, &vd)).unwrap();
                 }
             }
+            // member order and number layout anchors (every mode)
+            for desc in JSON_ANCHORS {
+                let vd = parse_vd(&mut Toks::new(desc)).unwrap();
+                for mode in JSON_MODES {
+                    writeln!(out, "json {} {}\t{}", mode, vd.to_text(), run_json(&env, mode, &vd)).unwrap();
+                }
+            }
             for i in 0..n_json {
                 let vd = gen_vd(r, 1 + (i % 3) as u32);
                 let mode = JSON_MODES[r.below(JSON_MODES.len() as u64) as usize];
@@ -892,6 +899,26 @@ fn mutate_shape(r: &mut Rng, s: &Shape) -> Shape {
     }
 }
 
+/// JSON anchors: key order of the value map across kinds and number representations, the layouts of
+/// the float printer (integers as floats, decimal point inside, leading zeros, exponents, subnormals)
+const JSON_ANCHORS: &[&str] = &[
+    "M 6 s62 i1 s61 i2 i10 i3 i9 i4 i-1 i5 sc3a9 i6",
+    "M 5 d4609434218613702656 i1 i1 i2 i2 i3 d4602678819172646912 i4 d13826050856027422720 i5",
+    "M 4 i340282366920938463463374607431768211455 i1 i-170141183460469231731687303715884105728 i2 u18446744073709551615 i3 i9223372036854775807 i4",
+    "M 4 d4890909195324358656 i1 i1000000000000000000 i2 i999999999999999999 i3 d4890909195324358657 i4",
+    "M 3 T i1 s i2 i5 i3",
+    "M 4 sefbfbf i1 sf0908080 i2 s7f i3 sc280 i4",
+    "M 3 s61 M 2 s7a i1 s79 i2 s41 L 2 M 2 i2 i1 i1 i2 M 0 s5a none",
+    "M 2 S62 i1 s61 i2",
+    "L 12 d0 d9223372036854775808 d4607182418800017408 d4621819117588971520 d4591870180066957722 d4487126258331716666 d4472406533629990549 d4846369599423283200 d4846369599423283201 d4850376798678024192 d4741671816366391296 d4372995238176751616",
+    "L 8 d1 d4503599627370496 d9218868437227405311 d4890909195324358656 d4895412794951729152 d4382002437431492608 d4562254508917369340 d13835058055282163712",
+    "L 6 d4607182418800017409 d4607182418800017407 d4611686018427387903 d4728779608739021824 d4728779608739021825 d4503599627370497",
+    "M 2 y00 i1 s61 i2",
+    "M 2 none i1 s61 i2",
+    "M 2 L 1 i1 i1 s61 i2",
+    "M 2 d9218868437227405312 i1 s61 i2",
+];
+
 /// cross-shape anchors (serialise with the first shape, deserialise with the second): the error and
 /// leniency branches of the deserializer
 const X_ANCHORS: &[&str] = &[
@@ -959,6 +986,74 @@ const X_ANCHORS: &[&str] = &[
     "seq u8 ; L 2 i1 i2 ; map u8 u8",
     "bytes ; y0102 ; seq u8",
     "nstruct T u8 ; i1 ; nstruct W u8",
+    // integer -> float casts of serde's float visitors (round to nearest even)
+    "u64 ; i18446744073709551615 ; f64",
+    "u64 ; i18446744073709551615 ; f32",
+    "u64 ; i9007199254740993 ; f64",
+    "u64 ; i9007199254740995 ; f64",
+    "i64 ; i-9007199254740995 ; f64",
+    "i64 ; i-9007199254740993 ; f64",
+    "u64 ; i9223372036854775807 ; f64",
+    "u64 ; i9223372036854775809 ; f64",
+    "u64 ; i18446744073709550592 ; f64",
+    "u64 ; i18446744073709550593 ; f64",
+    "u32 ; i16777217 ; f32",
+    "u32 ; i16777219 ; f32",
+    "u32 ; i4294967295 ; f32",
+    "u32 ; i4294967167 ; f32",
+    "i64 ; i-9223372036854775808 ; f32",
+    "i64 ; i-9223372036854775808 ; f64",
+    "u8 ; i0 ; f64",
+    "u8 ; i1 ; f32",
+    "i8 ; i-1 ; f32",
+    "u16 ; i65535 ; f32",
+    // bytes <-> str <-> seq
+    "bytes ; y68c3a9 ; str",
+    "bytes ; y ; str",
+    "bytes ; yff ; str",
+    "bytes ; yc080 ; str",
+    "bytes ; yc1bf ; str",
+    "bytes ; yc2 ; str",
+    "bytes ; ye08080 ; str",
+    "bytes ; ye0a080 ; str",
+    "bytes ; yeda080 ; str",
+    "bytes ; yed9fbf ; str",
+    "bytes ; yee8080 ; str",
+    "bytes ; ye282ac ; str",
+    "bytes ; ye282 ; str",
+    "bytes ; yf0808080 ; str",
+    "bytes ; yf0908080 ; str",
+    "bytes ; yf48fbfbf ; str",
+    "bytes ; yf4908080 ; str",
+    "bytes ; yf5808080 ; str",
+    "bytes ; y80 ; str",
+    "bytes ; y61e282ac62 ; str",
+    "str ; sc3a9e282acf09d849e00 ; bytes",
+    "char ; c1114111 ; bytes",
+    "seq u8 ; L 2 i1 i255 ; bytes",
+    "seq u16 ; L 1 i256 ; bytes",
+    "seq i8 ; L 1 i-1 ; bytes",
+    "seq str ; L 1 s61 ; bytes",
+    "tup 2 u8 u8 ; L 2 i1 i2 ; bytes",
+    // field / variant identifiers by index and by bytes
+    "map u8 u8 ; M 2 i0 i1 i5 i2 ; struct T 1 a u8",
+    "map u8 u8 ; M 2 i1 i1 i0 i2 ; struct T 2 a u8 b u8",
+    "map u8 u8 ; M 1 i1 i1 ; struct T 2 a u8 b u8",
+    "map u8 u8 ; M 1 i1 i1 ; struct T 2 a opt u8 b u8",
+    "map i8 u8 ; M 1 i0 i1 ; struct T 1 a u8",
+    "map bool u8 ; M 1 T i1 ; struct T 1 a u8",
+    "map bytes u8 ; M 1 y61 i1 ; struct T 1 a u8",
+    "map bytes u8 ; M 2 y61 i1 y7a i9 ; struct T 1 a u8",
+    "map char u8 ; M 1 c97 i1 ; struct T 1 a u8",
+    "map opt u8 u8 ; M 1 N i1 ; struct T 1 a opt u8",
+    "map u8 u8 ; M 1 i1 i7 ; enum E 2 A vn u8 B vn u8",
+    "map u8 u8 ; M 1 i2 i7 ; enum E 2 A vn u8 B vn u8",
+    "map u8 unit ; M 1 i0 U ; enum E 2 A vu B vn u8",
+    "map i8 u8 ; M 1 i0 i7 ; enum E 1 A vn u8",
+    "map bytes u8 ; M 1 y41 i7 ; enum E 1 A vn u8",
+    "map bytes u8 ; M 1 y42 i7 ; enum E 1 A vn u8",
+    "map bool u8 ; M 1 T i7 ; enum E 1 A vn u8",
+    "enum E 1 A vn map u8 u8 ; V 0 M 1 i0 i3 ; enum E 1 A vs 1 a u8",
 ];
 
 /// hand-picked anchors: every constructor and the classic trouble spots
